@@ -212,13 +212,20 @@ CLAIMED = {
         technique='Coq list-induction theorems on the device models + exhaustive/random correspondence evaluated in Coq'),
     'C18': dict(
         category='proof',
-        text='Qed-closed theorems on the machine with a failing device: a device exception at call k stops the run exactly at '
+        text='The exception paths of all three engines are transcribed (EngPyFaults.v: _run_featured/_run_fast with the finally '
+             'block and the except ladder; EngNativeFaults.v: cold_output/cold_input -> done in the flat, paged, ring and '
+             'measured loops, Memory_run\'s NULL path with last_run_op_count/last_run_last_ops, _run_native) and proved (Qed) '
+             'to stop exactly where the machine with the same failing device stops, incl. the ring read-out and the cross-'
+             'engine equality C18_engines_stop_identically (Properties/C18_engines.v). '
+             'Qed-closed theorems on the machine with a failing device: a device exception at call k stops the run exactly at '
              'an op boundary of the failure-free machine (memory, input, ip, op count), and runs that end earlier equal the '
              'definition; the except ladder is modelled; every IO call index x 4 exception kinds x 3 engines is enumerated per '
              'generated program and compared in Coq.',
         design_ref='DESIGN.md section 4, C18',
         note='partial: asynchronous signal delivery at an arbitrary instruction is a runtime behaviour the model cannot '
-             'exhibit; only device-raised KeyboardInterrupt is enumerated. Known finding F12.',
+             'exhibit (PyErr_CheckSignals cadence not modelled); only device-raised KeyboardInterrupt is enumerated; the native '
+             'theorems carry top_guard (F1). The campaign evaluates the engine fault models next to the machine model on every '
+             'case. F12 fixed.',
         technique='Coq prefix-consistency theorems + complete fault enumeration per program compared in Coq'),
     'C19': dict(
         category='proof',
